@@ -233,6 +233,7 @@ def job_spec_lemmas(tier, rng, n):
         'identity': z3.And(S.vec_eq(SP.pauli_mul(p, e), p), S.vec_eq(SP.pauli_mul(e, p), p)),
         'inverse': z3.And(S.vec_eq(SP.pauli_mul(p, SP.pauli_inv(p)), e), S.vec_eq(SP.pauli_mul(SP.pauli_inv(p), p), e)),
         'centre_iI_commutes_order4': z3.And(S.vec_eq(SP.pauli_mul(c, p), SP.pauli_mul(p, c)), S.vec_eq(c4, e)),
+        'bit_form_is_mod4_arithmetic': z3.And(S.vec_eq(SP.pauli_mul(p, q), SP.pauli_mul_arith(p, q)), S.vec_eq(SP.pauli_inv(p), SP.pauli_inv_arith(p))),
         'anticommute_gives_minus': z3.Or(SP.pauli_commute(p, q),
                                         S.vec_eq(SP.pauli_mul(p, q), SP.pauli_mul(SP.pauli_mul(c, c), SP.pauli_mul(q, p)))),
     }
